@@ -85,8 +85,7 @@ def check(run):
     run.nontrivial = {str(x) for x in run.nontrivial}
     run.sample({"case": cases[5][:400], "impl": io[5][:300]})
     report_diffs(run, diffs, "coq/Client.v (h_read_card)", "Feig::read_card", "client")
-    if any(not v.get("no_failing_input_found") for v in run.violations):
-        run.violations = [v for v in run.violations if not v.get("no_failing_input_found")]
+    vlib.prefer_concrete(run)
     return vlib.finish(run, trusted_base=TB, assumptions=["UIDs are hex text (ASCII) as the codec produces them",
                                                            "open known finding: an application list none of whose entries names an application, with a UID reported, is answered with an error instead of the UID as membership id (known_findings.json)"])
 
